@@ -294,6 +294,20 @@ def gen_run(seed, i, tier):
         run["mode"], ncol = "auto", 3
         run["n"] = n = int(r.integers(17000, 20001))
     sig = r.standard_normal((n, ncol)) + r.uniform(-2, 2, ncol)
+    # the record in other containers: raw ADC counts (int64 / int16), float32, Fortran
+    # order, a strided view -- serial and parallel must copy them into the workers alike
+    cont = ("f8", "f8", "i8", "f4", "F", "strided", "i2")[(i // 3) % 7]
+    if cont in ("i8", "i2"):
+        sig = np.round(sig * 300).astype({"i8": np.int64, "i2": np.int16}[cont])
+    elif cont == "f4":
+        sig = sig.astype(np.float32)
+    elif cont == "F":
+        sig = np.asfortranarray(sig)
+    elif cont == "strided":
+        big = np.zeros((2 * n, 2 * ncol))
+        big[::2, ::2] = sig
+        sig = big[::2, ::2]
+    run["container"] = cont
     if kind.endswith("_ic"):
         ic = "steady"
         stype = IC_STYPES[(i // 5) % 4]
